@@ -40,6 +40,26 @@ def segments(ck, spec_sets, draws):
     return len(rows)
 
 
+def pairs(ck, draws):
+    """Coverage obligation PairsFree: in genomes of 65-193 genes every two positions 1..128 apart
+    must be decided in all four ways over `draws` uniform crossovers ((3/4)^draws is negligible)."""
+    out = os.path.join(ck.work, "pairs.ndjson")
+    ck.harness(["var-pairs", "--seed", ck.seed, "--draws", draws, "--out", out], timeout=1800)
+    rows = vlib.read_ndjson(out)
+    for r in rows:
+        if r["not_ok"]:
+            ck.violation(f"pairs:{r['form']}:n{r['n']}:not_ok",
+                         f"uniform crossover of equal-length parents (n={r['n']}, {r['form']}) failed "
+                         f"{r['not_ok']} times out of {r['draws']}", {"kind": "pairs", "row": r})
+        elif r["fewest_pairs"] < 4:
+            ck.violation(f"pairs:{r['form']}:n{r['n']}:d{r['d']}",
+                         f"uniform crossover ({r['form']}, {r['n']} genes): positions {r['at']} and "
+                         f"{r['at'] + r['d']} were decided in only {r['fewest_pairs']} of the 4 possible ways "
+                         f"in {r['draws']} crossovers - they are not decided independently",
+                         {"kind": "pairs", "row": r})
+    return len(rows)
+
+
 def run(ck):
     q = ck.tier == "quick"
     res, cpath = varcheck.mc(ck)
@@ -47,6 +67,7 @@ def run(ck):
     spec_sets = {s["n"]: {tuple(c) for c in s["children"]} for s in res.tagged.get("SEGS", [])}
     # (1 - 1/(n+1)^2)^draws < 1e-12 for n <= 6 needs draws >= 1400; far more are taken
     nrows = segments(ck, spec_sets, 20000 if q else 400000)
+    prow = pairs(ck, 400 if q else 4000)
     n, samples = varcheck.tv(ck, {"xo", "xch"}, 6000 if q else 400000)
     ck.cov["evaluations"] = summ["cases"] + n
     ck.cov["distinct_nontrivial"] = summ["cases"]
@@ -56,14 +77,16 @@ def run(ck):
     ck.cov["exhaustive"] = True
     ck.cov["samples"] = res.case_samples[:2] + samples
     ck.cov["conformance"].update({"replay_cases": summ["cases"], "replay_mismatches": summ["mismatches"],
-                                  "segment_rows": nrows})
+                                  "segment_rows": nrows, "pair_rows": prow})
     ck.cov["checker_cmd"] = "tlc MC_Variation; vh var-replay; vh var-segments; vh var-trace + tlc Trace_Variation"
     ck.assumptions += ["L7: only the support of the two-point cut-point distribution is checked",
                        "bitstring parents are all-0 vs all-1 or complementary patterns"]
 
 
 def replay(ck, obj):
-    if obj["kind"] == "segments":
+    if obj["kind"] == "pairs":
+        pairs(ck, obj["row"]["draws"])
+    elif obj["kind"] == "segments":
         res, cpath = varcheck.mc(ck)
         spec_sets = {s["n"]: {tuple(c) for c in s["children"]} for s in res.tagged.get("SEGS", [])}
         segments(ck, spec_sets, obj["row"]["draws"])
